@@ -40,7 +40,10 @@ CHECK = {
     'gcc/clang, glibc, the linker --wrap feature and the sanitizer run-times are trusted',
   ],
   'instances': {
-    'quick': insts(),
-    'thorough': insts(),
+    # "heap objects deleted once are released exactly once" when the deleting is done by destructors that delete what
+    # they own (ownership graphs with cycles; harness/h_gc.c mode=own) in addition to the grid
+    'quick': insts() + [dict(name='own-graphs3', harness='h_gc.c', variant='base', args=['mode=own', 'n=3'])],
+    'thorough': insts() + [dict(name='own-graphs3', harness='h_gc.c', variant='base', args=['mode=own', 'n=3']),
+                           dict(name='own-graphs4', harness='h_gc.c', variant='base', args=['mode=own', 'n=4'])],
   },
 }
